@@ -1,7 +1,9 @@
 //! C10 - FAT copies and reserved table bits are maintained exactly as the format requires
-use super::hist::HistProp;
-use crate::gen::GenCfg;
-use crate::ops::{Aspect, RunCfg, Trace};
+use super::hist::{self, HistProp};
+use crate::gen::{Case, GenCfg};
+use crate::ops::{Aspect, Op, RunCfg, Trace};
+use crate::run::{self, Block, Report, Tier};
+use crate::vol::VolCfg;
 
 fn nontrivial(t: &Trace) -> bool {
     (t.has("alloc_write") || t.has("mkdir")) && (t.has("remove") || t.has("truncate_shrinks"))
@@ -28,4 +30,68 @@ pub fn prop() -> HistProp {
         pressure_cases: (2000, 40000),
         assumptions: vec!["status bits in FAT[1] are not modified by the library (it keeps its dirty flag in the boot sector)"],
     }
+}
+
+pub fn run(tier: Tier, seed: u64) -> i32 {
+    let hp = prop();
+    let mut rep = Report::new(hp.id, tier, seed, hp.level, hp.rule);
+    rep.rule.push_str("; plus a transient storage fault (an error, or the retryable 'interrupted' condition) at EVERY device call of each of 24 scripted single operations (truncations, overwrite, append, create, mkdir, remove, rename, move ...) on mirrored volumes with 2 and 3 copies: a call that reports success although the fault fired inside it (retried, or swallowed) is held to the same byte comparison; a call that reports the error is not judged and ends the case");
+    for a in &hp.assumptions {
+        rep.assume(a);
+    }
+    let kb = hist::known_block(&hp, &mut rep);
+    rep.add(kb);
+    rep.add(hist::regress_block(&hp));
+    if !rep.failed() {
+        // two mirrored copies (library format) and three (imggen geometry); thorough: every width with both
+        let mut fvols: Vec<VolCfg> = vec![VolCfg::from_preset(1), VolCfg::from_gen_preset(3), VolCfg::from_preset(12)];
+        if tier == Tier::Thorough {
+            fvols.push(VolCfg::from_preset(8));
+            fvols.push(VolCfg::from_gen_preset(0));
+            fvols.push(VolCfg::from_gen_preset(7));
+            let mut sh = VolCfg::from_preset(8);
+            sh.short_io = 21;
+            fvols.push(sh);
+        }
+        let n_scripts = super::c12::first_mutation_scripts(512).len();
+        let kmax: u16 = tier.pick(600, 6000);
+        let hp_ref = &hp;
+        let fb: Block = run::run_indexed("transient_fault_at_every_device_call_of_one_operation", (fvols.len() * n_scripts * 2) as u64, |i, blk| {
+            let interrupted = i % 2 == 1;
+            let i = i as usize / 2;
+            let v = &fvols[i / n_scripts];
+            let cs = v.cluster_size();
+            let (name, script) = super::c12::first_mutation_scripts(cs).swap_remove(i % n_scripts);
+            // quick tier: every other position on the (large, slow to copy) FAT32 volume, which half depends on the seed
+            let (k0, step) = if tier == Tier::Quick && v.fat == 32 { ((seed % 2) as u16, 2usize) } else { (0, 1) };
+            for k in (k0..kmax).step_by(step) {
+                let mut ops = super::c12::populate_ops(cs);
+                ops.push(Op::FaultNext { k, hold: script.len() as u8, interrupted });
+                ops.extend(script.iter().cloned());
+                let case = Case { vol: v.clone(), ops };
+                let mut out = hist::eval_case(hp_ref, &case);
+                let fired = out.classes.contains_key("cases_with_fault_fired");
+                out.nontrivial = fired;
+                out.hash = run::hash_str(&format!("fault|{}|{}|{}|{:?}", name, k, interrupted, v));
+                blk.record(&out, || serde_json::json!({"script": name, "fault_at_device_call": k, "interrupted": interrupted, "vol": v}));
+                if let Some(m) = out.violation {
+                    return Some(run::Failure { message: format!("transient fault{} at device call {} of '{}': {}", if interrupted { " (interrupted)" } else { "" }, k, name, m), case: serde_json::to_value(&case).unwrap(), kind: "history".into() });
+                }
+                if !fired {
+                    break;
+                }
+            }
+            None
+        });
+        rep.add(fb);
+    }
+    if !rep.failed() {
+        rep.add(hist::random_block(&hp, "random_histories", seed, tier.pick(hp.quick_cases, hp.thorough_cases)));
+    }
+    if !rep.failed() {
+        if let Some(b) = hist::pressure_block(&hp, seed, tier) {
+            rep.add(b);
+        }
+    }
+    rep.finish()
 }
